@@ -13,20 +13,21 @@ res=""
 if ! git apply $d/patch.diff 2>/dev/null; then patch -p1 -s --no-backup-if-mismatch < $d/patch.diff || res="patch-does-not-apply"; fi
 if [ -z "$res" ]; then
   go build ./... >/dev/null 2>&1 && b=ok || b=FAIL
-  go test -vet=off -count=1 ./... > /tmp/seedverify_suite.log 2>&1 && s=ok || s=FAIL
+  go test -vet=off -count=1 ./... > /tmp/seedverify_$$_suite.log 2>&1 && s=ok || s=FAIL
   if [ $s = FAIL ]; then
     # timing-dependent tests (TestSender, TestISISServer) fail now and then under load: re-run the failing packages twice
-    pk=$(grep -E "^(FAIL|---)" /tmp/seedverify_suite.log | grep -E "^FAIL\s+github" | awk '{print $2}' | sed 's#github.com/bio-routing/bio-rd#.#' | sort -u)
-    ft=$(grep -E "^--- FAIL" /tmp/seedverify_suite.log | awk '{print $3}' | sort -u | tr '\n' ',')
-    if [ -n "$pk" ] && go test -vet=off -count=1 $pk > /tmp/seedverify_suite2.log 2>&1 && go test -vet=off -count=1 $pk >> /tmp/seedverify_suite2.log 2>&1; then s="ok(flaky:$ft)"; else s="FAIL($ft)"; fi
+    pk=$(grep -E "^(FAIL|---)" /tmp/seedverify_$$_suite.log | grep -E "^FAIL\s+github" | awk '{print $2}' | sed 's#github.com/bio-routing/bio-rd#.#' | sort -u)
+    ft=$(grep -E "^--- FAIL" /tmp/seedverify_$$_suite.log | awk '{print $3}' | sort -u | tr '\n' ',')
+    if [ -n "$pk" ] && go test -vet=off -count=1 $pk > /tmp/seedverify_$$_suite2.log 2>&1 && go test -vet=off -count=1 $pk >> /tmp/seedverify_$$_suite2.log 2>&1; then s="ok(flaky:$ft)"; else s="FAIL($ft)"; fi
   fi
   cp $d/demo_test.go $pkg/$name
-  rn=$(echo "$run" | sed -n 's/.*-run \([^ ]*\).*/\1/p')
+  rn=$(echo "$run" | sed -n 's/.*-run \([^ ]*\).*/\1/p' | tr -d "'\"")
   race=""; case "$run" in *-race*) race="-race";; esac
-  (cd $pkg && go test $race -count=1 -run "$rn" . > /tmp/seedverify_demo1.log 2>&1) && w=PASS || w=fail
+  (cd $pkg && go test $race -count=1 -run "$rn" . > /tmp/seedverify_$$_demo1.log 2>&1) && w=PASS || w=fail
   git checkout -q -- . 
-  (cd $pkg && go test $race -count=1 -run "$rn" . > /tmp/seedverify_demo2.log 2>&1) && wo=pass || wo=FAIL
+  (cd $pkg && go test $race -count=1 -run "$rn" . > /tmp/seedverify_$$_demo2.log 2>&1) && wo=pass || wo=FAIL
   res="build=$b suite_with_change=$s demo_with_change=$w demo_without=$wo"
 fi
 echo "$d: $res"
 cd /; git -C /repo worktree remove --force $wt
+rm -f /tmp/seedverify_$$_*
